@@ -535,6 +535,32 @@ def main():
     msn = re.sub(r"\s+", "", hm["mark_and_sweep_new"][1])
     if 0 <= msn.find("self.mark(") < msn.find("synchronizer.resume_threads()"):
         proto.append("resume_threads")
+    # `impl Drop for RootToken`: the body of every `fn drop` (both cfg variants), whitespace removed.  The model's
+    # `RootTable.free` is unconditional; a drop that may skip the `free` (try_lock, early return, a condition) is a
+    # different body and breaks the obligation root_token_drop_always_frees.
+    root_drop = []
+    for m in re.finditer(r"impl\s+Drop\s+for\s+RootToken\s*\{", closed):
+        blk, _ = block_at(closed, closed.find("{", m.end() - 1))
+        for dm in re.finditer(r"fn\s+drop\s*\(\s*&mut\s+self\s*\)\s*\{", blk):
+            body, _ = block_at(blk, blk.find("{", dm.end() - 1))
+            root_drop.append(re.sub(r"\s+", "", body).rstrip(";"))
+    if not root_drop:
+        die("impl Drop for RootToken not found")
+    # `GlobalSlotRecycler::recycle`: the first walk starts from the globals that are NOT candidates
+    rec_impl = find_block(closed, r"\nimpl\s+GlobalSlotRecycler\s*\{", "impl GlobalSlotRecycler")
+    rm = methods(rec_impl)
+    if "recycle" not in rm:
+        die("GlobalSlotRecycler::recycle not found")
+    rb = re.sub(r"\s+", "", rm["recycle"][1])
+    recycler = []
+    guarded = "for(index,root)inroots.iter().enumerate(){if!self.slots.contains(&index){self.push_back(root.clone());}}"
+    loops = re.findall(r"for[^{};]*inroots\.iter\(\)[^{]*\{", rb)
+    if guarded in rb and len(loops) == 1:
+        recycler.append("root walk skips candidate slots")
+    if "self.slots.insert(slot);" in rb and "shadowed_slots.drain(..)" in rb:
+        recycler.append("candidates = drained shadowed slots")
+    if re.search(r"loop\{let\(live,rest\).*?partition\(\|slot\|!self\.slots\.contains\(slot\)\);", rb):
+        recycler.append("live candidates are walked until no further slot becomes live")
     sync_impl = find_block(vm, r"\nimpl\s+Synchronizer\s*\{", "impl Synchronizer")
     sm = methods(sync_impl)
     if "enumerate_stacks" not in sm:
@@ -612,10 +638,15 @@ def main():
         w("/-- Constants of the growth / compaction policy (`EXTEND_CHUNK` of both `impl FreeList`, `RESET_LIMIT`, the\n`grow_by` of `FreeList::new`) and the recognised statements of the policy. -/\n")
         w("def srcExtendChunk : Nat := %d\ndef srcResetLimit : Nat := %d\ndef srcInitialSlots : Nat := %d\n" % (c_chunk, c_reset, inits.pop()))
         w("def srcPolicy : List String := %s\n\n" % lean_list(policy))
+        w("/-- Bodies of `fn drop` of `impl Drop for RootToken` (every cfg variant). -/\n")
+        w("def rootTokenDrop : List String := %s\n\n" % lean_list(root_drop))
+        w("/-- Recognised statements of `GlobalSlotRecycler::recycle`. -/\n")
+        w("def recyclerFacts : List String := %s\n\n" % lean_list(recycler))
         w("end SteelVerif.C04.Gen\n")
     print("variants=%d pointer=%d leafA=%d leafB=%d visitA=%d visitB=%d rootsMark=%s rootsEnumerate=%s live=%s sites=%d" % (
         len(variants), len(pointer), len(leafA), len(leafB), len(edgesA), len(edgesB), roots_mark, roots_enum, live_fn, len(sites)))
     print(" constants: EXTEND_CHUNK=%d RESET_LIMIT=%d policy=%s protocol=%s locks=%s" % (c_chunk, c_reset, policy, proto, sorted(set(h for _, h in locks))))
+    print(" RootToken::drop = %s ; recycler = %s" % (root_drop, recycler))
     print(" markSites = %s" % mark_sites)
     print(" collCalls = %s" % coll_calls)
     for k in ("visit_continuation", "visit_closure", "visit_custom_type"):
